@@ -74,7 +74,7 @@ def scheduler_inputs(rng, n):
     gemm = (rng.choice([(2, 2, 2), (4, 2, 2), (2, 4, 2)]), gmats)
     gemm_unb = ((None, 2, 2), gmats)
     for _ in range(n):
-        fam = rng.choice(["ew1", "ew2", "matmul", "matmul", "bmatmul", "conv", "bcast", "random"])
+        fam = rng.choice(["ew1", "ew2", "matmul", "matmul", "bmatmul", "gemmbias", "dot", "conv", "bcast", "random"])
         if fam == "ew1":
             k = rng.choice([2, 3])
             n0 = rng.choice([4, 8, 12, 16, 6, 3, 64, 2, 1])
@@ -105,6 +105,22 @@ def scheduler_inputs(rng, n):
                                                      ({"A": [[1, 0, 0, 0], [0, 0, 0, 1], [0, 0, 1, 0]], "b": [0, 0, 0]} if bw else {"A": [[0, 0, 0, 1], [0, 0, 1, 0]], "b": [0, 0]}),
                                                      {"A": [[1, 0, 0, 0], [0, 1, 0, 0], [0, 0, 1, 0]], "b": [0, 0, 0]}]}
             t = gemm if rng.random() < 0.7 else gemm_unb
+            sizes = [1, 1, 4]
+        elif fam == "gemmbias":
+            # four operands on a three-dimensional template (gemm with a bias operand): more operands than template dims
+            M, N, K = (rng.choice([2, 4, 8]) for _ in range(3))
+            while M * N * K > 128:
+                M, N, K = (rng.choice([2, 4]) for _ in range(3))
+            mats = [[[1, 0, 0], [0, 0, 1]], [[0, 0, 1], [0, 1, 0]], [[1, 0, 0], [0, 1, 0]], [[1, 0, 0], [0, 1, 0]]]
+            rec = {"bounds": [M, N, K], "pats": [{"A": [list(r) for r in m], "b": [0, 0]} for m in mats]}
+            t = (rng.choice([(2, 2, 2), (None, 2, 2)]), mats)
+            sizes = [1, 1, 4, 4]
+        elif fam == "dot":
+            # a reduction on a one-dimensional template with three operands: out[i] += x[i, k] * y[k, i]-like, the template takes k or i
+            I, K = rng.choice([2, 4, 8]), rng.choice([2, 4, 8])
+            red = rng.random() < 0.5
+            rec = {"bounds": [I, K], "pats": [{"A": [[1, 0], [0, 1]], "b": [0, 0]}, {"A": [[0, 1]], "b": [0]}, {"A": [[1, 0]], "b": [0]}]}
+            t = ((rng.choice([2, 4]),), [[[0], [1]], [[1]], [[0]]]) if red else ((rng.choice([2, 4]),), [[[1], [0]], [[0]], [[1]]])
             sizes = [1, 1, 4]
         elif fam == "conv":
             OX, FX, C = rng.choice([2, 4]), rng.choice([1, 3]), rng.choice([2, 4])
